@@ -237,19 +237,30 @@ def main():
                 r2["_inst"], r2["_mutant"] = r["_inst"], r["_mutant"]
                 r2["retried_after"] = r["reason"][:200]
                 results[k] = r2
-        # The code's loop structure no longer matches the loop contracts (a loop was added, merged or removed): the unbounded
-        # proof cannot be attempted.  Stand-in: the same function contract in small scope with all loops unwound.  A failure
-        # there is a genuine execution (=> violation with a concrete counterexample); a pass leaves the instance undecided.
+        # The code's loop structure no longer matches the loop contracts (a loop was added, merged or removed, or a local the
+        # invariants name was renamed): the unbounded proof cannot be attempted.  Stand-in: the same function contract in small
+        # scope with all loops unwound (every trace is an execution).  A failure there is a violation with a concrete
+        # counterexample; a pass decides the instance for the small scope only - it is reported as held, labelled bounded, and
+        # the evidence says why; an incomplete unwinding leaves the instance undecided (exit 2).
         for k, r in enumerate(list(results)):
-            if r["status"] == "machinery" and not r["_mutant"] and re.search(r"loop structure changed|does not exist \(loop", r["reason"]) and r["_inst"].get("defines_small"):
+            if r["status"] == "machinery" and not r["_mutant"] and re.search(r"loop structure changed|does not exist \(loop|resolves to \d+ symbols", r["reason"]):
                 inst2 = dict(r["_inst"]); inst2["loops"] = []; inst2["unwind_loops"] = []
-                r2 = unitrun.run_instance(inst2, a.tier, scratch, True, None, None, False, True)
-                if r2["status"] == "fail":
+                inst2["timeout_s"] = min(int(inst2.get("timeout_s", 300)), 240)
+                r2 = unitrun.run_instance(inst2, a.tier, scratch, bool(inst2.get("defines_small")), None, None, False, True)
+                note = "loop contracts no longer match the code (%s)" % r["reason"][:160]
+                incomplete = [f for f in r2.get("failures", []) if "unwind" in f["id"] or "unwinding" in f["description"]]
+                if r2["status"] == "fail" and not incomplete:
                     r2["_inst"], r2["_mutant"] = r["_inst"], None
-                    r2["bounded_fallback"] = "loop contracts no longer match the code (%s); failure found by the bounded stand-in: small scope, loops unwound" % r["reason"][:160]
+                    r2["bounded_fallback"] = note + "; failure found by the bounded stand-in: small scope, loops unwound"
+                    results[k] = r2
+                elif r2["status"] == "pass":
+                    r2["_inst"], r2["_mutant"] = r["_inst"], None
+                    r2["bounded_fallback"] = note + "; decided by the bounded stand-in only: small scope, loops unwound - held there"
+                    r2["loops_unwound"] = max(1, r2.get("loops_unwound", 0))
+                    print("NOTE: %s/%s: %s" % (r["unit"], r["instance"], r2["bounded_fallback"][:300]))
                     results[k] = r2
                 else:
-                    r["reason"] += " | bounded stand-in (small scope, loops unwound): %s %s" % (r2["status"], r2["reason"][:120])
+                    r["reason"] += " | bounded stand-in (small scope, loops unwound): %s %s" % (r2["status"], (r2["reason"] or "unwinding incomplete")[:120])
         bounded = [run_bounded(b, a.tier, scratch) for b in pdoc.get("bounded", []) if not a.only]
 
         known = load_known()
@@ -283,6 +294,8 @@ def main():
             uev["loops_unwound_completely"] = r.get("loops_unwound", 0)
             if r["status"] == "machinery":
                 uev["reason"] = r["reason"]
+            if r.get("bounded_fallback"):
+                uev["bounded_fallback"] = r["bounded_fallback"]
             units_ev.append(uev)
             if r["status"] == "pass":
                 rr = r.get("raw_results", [])
